@@ -93,9 +93,20 @@ pub enum ChildError {
     Harness(String),
 }
 
+/// Names a child process is started under (argv[0]): the name of the program is an input of the
+/// process that arrives without any libc call, and results must not depend on it. Which name a
+/// child gets is a function of what it is asked to do, so that it is the same on every execution.
+pub const PROGRAM_NAMES: [&str; 3] = ["fpsim", "lipe_find3", "/usr/local/bin/lfind"];
+
 fn run_child(args: &[String], extra_env: &[(&str, String)]) -> Result<(i32, String, String), String> {
+    run_child_named(args, extra_env, 0)
+}
+
+fn run_child_named(args: &[String], extra_env: &[(&str, String)], name: usize) -> Result<(i32, String, String), String> {
+    use std::os::unix::process::CommandExt;
     let exe = std::env::current_exe().map_err(|e| format!("current_exe: {e}"))?;
     let mut cmd = Command::new(exe);
+    cmd.arg0(PROGRAM_NAMES[name % PROGRAM_NAMES.len()]);
     cmd.args(args).stdin(Stdio::null()).stdout(Stdio::piped()).stderr(Stdio::piped());
     for (k, v) in extra_env {
         cmd.env(k, v);
@@ -127,7 +138,8 @@ pub fn run_block_child(prop: &str, seed: u64, first: u64, count: u64, tier: &str
         count.to_string(),
         tier.into(),
     ];
-    let (code, out, err) = run_child(&args, &[])?;
+    // (the block's ordinal decides the name: two partitions of the same runs give a run two names)
+    let (code, out, err) = run_child_named(&args, &[], (first / count.max(1)) as usize)?;
     if code != 0 {
         return Err(format!("block child {prop} first={first} exited {code}: {}", err.trim()));
     }
@@ -354,7 +366,7 @@ pub fn write_evidence(e: EvidenceInput) -> Result<(), String> {
                     }
                     let _ = std::fs::remove_file(&side);
                 } else if file == "weakhash" && e.prop != "C16" {
-                    coverage.insert(key.into(), json!("not run: the library's source does not mention DefaultHasher (the pass rebuilds the library with a seven-value DefaultHasher so that digest collisions become reachable)"));
+                    coverage.insert(key.into(), json!("not run: the library's source has neither DefaultHasher nor a hand-written hash function with well-known constants (the pass rebuilds the library with seven-value digests so that collisions become reachable)"));
                 }
             }
             String::new()
